@@ -542,12 +542,19 @@ def load_suites():
     return _SUITES
 
 
+_COMBOS = None
+
+
 def all_combos():
     """[(suite_code, version, etm)] every table suite x valid version x EtM applicability"""
+    global _COMBOS
+    if _COMBOS is not None:
+        return _COMBOS
     out = []
     for code, s in sorted(load_suites().items()):
         for v in s.versions():
             out.append((code, v, False))
             if s.kind == "cbc" and v != SSL30:
                 out.append((code, v, True))
+    _COMBOS = out
     return out
